@@ -203,8 +203,6 @@ def hist_ok(c):
         qc = c['npix'][1] * os_ * Fraction(cl['lamfac'])
         if qr.denominator != 1 or qc.denominator != 1 or len(cl['amp']) > qr or len(cl['amp'][0]) > qc:
             return False
-        if single_pixel_offcentre({'op': 'prop', 'amp': cl['amp']}):
-            return False
     return True
 
 
@@ -502,29 +500,3 @@ def oracle(c, impl):
                 return (f'{name} path: window {c["wins"][k - 1]} captures {E[k - 1]!r}, more than the window '
                         f'{c["wins"][k]} containing it ({E[k]!r})')
     return None
-
-
-# ------------------------------------------------------------------ known finding: a pupil that is one off-centre pixel
-def single_pixel_offcentre(c):
-    if c.get('op') != 'prop':
-        return False
-    a = c['amp']
-    nz = [(x, y) for x, row in enumerate(a) for y, v in enumerate(row) if v != 0]
-    return len(nz) == 1 and nz[0] != (len(a) // 2, len(a[0]) // 2)
-
-
-def known_match(finding, case, impl):
-    return (finding.get('id') == 'C05-single-pixel-pupil' and single_pixel_offcentre(case)
-            and isinstance(impl, dict) and impl.get('pin_field') == 0.0)
-
-
-KNOWN_CASE = {'op': 'prop', 'amp': [[0, 0, 0], [0, 0, 0], [0, 0, 1.5]], 'ph': [[0, 0, 0], [0, 0, 0], [0, 0, 0]], 'phden': 1,
-              'npix': [4, 4], 'os': 1, 'aniso': 'none', 'dexp': 7, 'uexp': 17, 'z': '1',
-              'wins': [[1, 1], [2, 3], [4, 4]], 'power': None}
-
-
-def replay_known(finding):
-    if finding.get('id') != 'C05-single-pixel-pupil':
-        return False
-    impl = run_impl(KNOWN_CASE)
-    return oracle(KNOWN_CASE, impl) is not None and known_match(finding, KNOWN_CASE, impl)
